@@ -123,7 +123,7 @@ func (t *Trial) CheckEvents(f *Final) (violation string, st EventStats) {
 					sawOld[kv{r.Key, r.RV}] = append(sawOld[kv{r.Key, r.RV}], seen{1, "Invalidate", 0})
 				}
 			case KGet:
-				if r.LEnter != 0 {
+				if r.LEnter != 0 && !r.LNF {
 					maybe[kv{r.Key, r.LVal}] = true
 				}
 			}
@@ -223,9 +223,16 @@ func (t *Trial) CheckEvents(f *Final) (violation string, st EventStats) {
 			} else {
 				// nobody returned it as the old value: only a finished load (which returns nothing about
 				// what it replaced), a not-found reload or InvalidateAll may have removed it
+				nf, late := false, ""
+				if a.Cause == 1 {
+					nf, late = t.nfRemoval(a)
+				}
 				switch {
 				case a.Cause == 2 && hasLoads:
 				case a.Cause == 1 && inInvalidateAll(a.T):
+				case nf:
+				case late != "":
+					return late, st
 				default:
 					return fmt.Sprintf("value (%d,%d) was reported with cause %s but no operation replaced or invalidated it", p.k, p.v, otter.DeletionCause(a.Cause)), st
 				}
@@ -275,6 +282,56 @@ func (t *Trial) CheckEvents(f *Final) (violation string, st EventStats) {
 		}
 	}
 	return "", st
+}
+
+// nfRemoval decides whether the atomic Invalidation event e, which no Invalidate / Compute returned as
+// its old value, is the removal a finished not-found load performs ("the mapping is removed"). It is if
+// the event falls between the loader's return and the return of such a Get for the key. A load is
+// superseded by any write that begins after its loader was entered (the load is registered by then):
+// removing a value written that late is a violation. Returns (explained, violation).
+func (t *Trial) nfRemoval(e Ev) (bool, string) {
+	var wcall int64 = -1
+	explained := false
+	late := ""
+	for _, rs := range t.Recs {
+		for i := range rs {
+			r := &rs[i]
+			if r.Key != e.Key {
+				continue
+			}
+			switch r.Kind {
+			case KSet:
+				if r.Arg == e.Val {
+					wcall = r.Call
+				}
+			case KSetIfAbsent:
+				if r.Arg == e.Val && r.ROk {
+					wcall = r.Call
+				}
+			case KCompute, KComputeIfPresent, KComputeIfAbsent:
+				if r.Arg == e.Val && r.Dec == DecWrite && r.Invoked > 0 {
+					wcall = r.Call
+				}
+			}
+		}
+	}
+	for _, rs := range t.Recs {
+		for i := range rs {
+			r := &rs[i]
+			if r.Kind != KGet || !r.LNF || r.Key != e.Key || !(r.LExit <= e.T && e.T <= r.Ret) {
+				continue
+			}
+			if wcall >= 0 && wcall > r.LEnter {
+				late = fmt.Sprintf("value (%d,%d), written by a call that began at %d, was removed at %d by the not-found result of a load whose loader had been entered at %d: that write superseded the load", e.Key, e.Val, wcall, e.T, r.LEnter)
+				continue
+			}
+			explained = true
+		}
+	}
+	if explained {
+		return true, ""
+	}
+	return false, late
 }
 
 // ---- C04 / C05: quiescent views -------------------------------------------------------------------
